@@ -1447,10 +1447,17 @@ class Analyzer:
                 me = ("n", ("v", c[0], c[1]), 0)
                 st.set_iv(me[1], *st.val_iv(v[1]))
                 a, b = (v[2], v[3]) if v[0] != "rem" else (None, v[2])
+                def stale(x):
+                    # an operand that lives in the destination denotes the *old* value: after the store its term names the new one,
+                    # and a relation between "it" and the destination would be one of the new value with itself (`o += n`, n >= 1,
+                    # must not yield  o - o <= -1)
+                    return x is not None and x[0] == "n" and x[1] is not None and _under(_tp(x[1]), (c[0], c[1]))
                 if v[0] == "sum":
                     # me = a + b : me - a = b in [lo b, hi b]
                     for x, y in ((a, b), (b, a)):
-                        iy = st.val_iv(y)
+                        if stale(x):
+                            continue
+                        iy = st.val_iv(y) if not stale(y) else (None, None)
                         if x[0] == "n" and x[1] is not None:
                             if iy[1] is not None:
                                 st.add_le(me, x, iy[1])
@@ -1460,21 +1467,22 @@ class Analyzer:
                     if a[0] == "n" and b[0] == "n" and (a[1] is not None or b[1] is not None) and not selfref:
                         st.lin[(c[0], c[1])] = (a, b)       # remembered: a later bound on `me` is a bound on a - b
                     # me = a - b : a - me = b
-                    ib = st.val_iv(b)
-                    if a[0] == "n" and a[1] is not None:
+                    ib = st.val_iv(b) if not stale(b) else (None, None)
+                    if a[0] == "n" and a[1] is not None and not stale(a):
                         if ib[0] is not None:
                             st.add_le(me, a, -ib[0])
                         if ib[1] is not None:
                             st.add_le(a, me, ib[1])
                     # me + b = a  →  b - a <= -lo(me) ... ;   b <= a - me
                     ia = st.val_iv(a)
-                    if b[0] == "n" and b[1] is not None and a[0] == "n":
+                    if b[0] == "n" and b[1] is not None and a[0] == "n" and not stale(a) and not stale(b):
                         # me = a - b  ⇒  me - a <= -lo(b) handled; also  b + me = a ⇒ b - a <= -lo(me)
                         im = st.val_iv(v[1])
                         if im[0] is not None and a[1] is not None:
                             st.add_le(b, a, -im[0])
                 elif v[0] == "rem":
-                    st.add_le(me, b, -1)
+                    if not stale(b):
+                        st.add_le(me, b, -1)
             return
         self.assign(st, pj, v)
 
@@ -2258,11 +2266,16 @@ class Analyzer:
                 if a[0] in ("n", "iv") and b[0] in ("n", "iv"):
                     cons = [(b, a, 0)]
                     ok, un = self.conj_check(st, cons)
+                    lift_ = None if ok else self.conj_lift(un)
                     self.oblige(bi, "S9u", ok, "D2" if ok else None, self.describe(t), t,
                                 "unsigned subtraction %s - %s may go below zero (panics in a build with overflow checks)" % (self.vs(a), self.vs(b)),
-                                None if ok else self.conj_lift(un))
-                    # the site is an obligation of its own (proven, lifted to the callers, or reported): what follows may rely on it,
-                    # exactly as what follows `v[i]` relies on i < len
+                                lift_)
+                    if not ok and lift_ is None:
+                        # a site that stays open here: in a release build the value wraps and execution goes on, so nothing is
+                        # assumed (what follows must not be judged under a condition that is only a reviewed or known finding)
+                        return [(t["target"], st)]
+                    # proven, or handed to the callers to prove: what follows may rely on it, exactly as what follows `v[i]` relies
+                    # on i < len
                     self.conj_assume(st, cons)
                     if st.bottom:
                         return []
